@@ -66,7 +66,7 @@ def apply_transfer_functions(obj, dx, tfs, fx=None, fy=None, ft=None, fr=None, s
     """
     if any(callable(tf) for tf in tfs):
         if fx is None:
-            fy, fx = [forward_ft_unit(dx, n) for n in obj.shape]
+            fy, fx = [forward_ft_unit(dx, n, shift=shift) for n in obj.shape]
 
         fx, fy = optimize_xy_separable(fx, fy)
         fr, ft = cart_to_polar(fx, fy)
